@@ -242,16 +242,61 @@ Definition summ_machine : machine := mkMachine hsh spc hop hret sstart sstep sla
    (returned before the Write was invoked) <= M <= (invoked before the Write returned), and the sets of
    real-time ordered Writes are nested.  The checker decides this for observation values that are DISTINCT
    POWERS OF TWO below 2^52 in magnitude spread (so the float sum is exact and identifies M uniquely). *)
+Definition is_obs (o : hop) : option f64 := match o with HObserve v => Some v | HWrite => None end.
+
+(* the integer value of an observation that is a power of two 2^j with 0 <= j <= 60, else None *)
+Definition pow2_int (v : f64) : option Z :=
+  match to_Z_exact v with
+  | Some z => if (0 <? z) && (z <=? 2 ^ 60) && (Z.eqb z (2 ^ Z.log2 z)) then Some z else None
+  | None => None
+  end.
+
 Section Check.
 Context {M : machine}.
-Variable op_of : op M -> hop.
-Variable ret_of : ret M -> hret.
+Variable op_of : Conc.op M -> hop.
+Variable ret_of : Conc.ret M -> hret.
+Variable bounds : list f64.
 
-(* value -> integer scaled by 2^1100 when it is a positive power of two *)
-Definition pow2_scaled (x : f64) : option Z :=
-  match x with
-  | Flocq.IEEE754.BinarySingleNaN.B754_finite false m e _ =>
-      if Pos.eqb m (Pos.shiftl 1 (Pos.size_nat m - 1 |> N.of_nat)) then Some (Z.pos m * 2 ^ (e + 1100)) else None
-  | _ => None
+Definition obs_calls (h : list (call M)) : list (call M * Z) :=
+  flat_map (fun c => match is_obs (op_of (c_op c)) with
+                     | Some v => match pow2_int v with Some z => [(c, z)] | None => [] end
+                     | None => [] end) h.
+
+Definition decodable (h : list (call M)) : bool :=
+  let vs := map snd (obs_calls h) in
+  Nat.eqb (List.length vs) (List.length (filter (fun c => match is_obs (op_of (c_op c)) with Some _ => true | None => false end) h)) &&
+  Z.eqb (fold_left Z.lor vs 0) (fold_left Z.add vs 0).      (* pairwise distinct powers of two *)
+
+Definition write_mask (o : hout) : option Z :=
+  match to_Z_exact (ho_sum o) with Some z => if 0 <=? z then Some z else None | None => None end.
+
+Definition write_ok (h : list (call M)) (w : call M) (o : hout) : bool :=
+  match write_mask o with
+  | None => false
+  | Some mask =>
+      let obs := obs_calls h in
+      let inM := filter (fun p => Z.eqb (Z.land mask (snd p)) (snd p)) obs in
+      Z.eqb mask (fold_left Z.add (map snd inM) 0) &&
+      Z.eqb (ho_count o) (Z.of_nat (List.length inM)) &&
+      Nat.eqb (List.length (ho_cum o)) (List.length bounds) &&
+      forallb (fun bc => Z.eqb (snd bc) (Z.of_nat (List.length (filter (fun p => fle (of_Z (snd p)) (fst bc)) inM))))
+              (combine bounds (ho_cum o)) &&
+      forallb (fun p => if c_res (fst p) <=? c_inv w then Z.eqb (Z.land mask (snd p)) (snd p) else true) obs &&
+      forallb (fun p => if Z.eqb (Z.land mask (snd p)) (snd p) then c_inv (fst p) <? c_res w else true) obs
   end.
+
+Definition writes_of (h : list (call M)) : list (call M * hout) :=
+  flat_map (fun c => match ret_of (c_ret c) with HOut o => [(c, o)] | HUnit => [] end) h.
+
+Definition snapshot_check (h : list (call M)) : bool :=
+  if negb (decodable h) then true
+  else
+    forallb (fun wo => write_ok h (fst wo) (snd wo)) (writes_of h) &&
+    forallb (fun w1 => forallb (fun w2 =>
+      if c_res (fst w1) <=? c_inv (fst w2) then
+        match write_mask (snd w1), write_mask (snd w2) with
+        | Some m1, Some m2 => Z.eqb (Z.land m1 m2) m1
+        | _, _ => false
+        end
+      else true) (writes_of h)) (writes_of h).
 End Check.
